@@ -19,9 +19,11 @@ import (
 	"os"
 	"os/exec"
 	"path/filepath"
+	"regexp"
 	"sort"
 	"strings"
 	"sync"
+	"time"
 )
 
 var c01Hazards = []string{"pap-effect", "unused-binder", "generic-union-match", "unit-typevar", "interp-block-start"}
@@ -177,6 +179,47 @@ func clip(s string, n int) string {
 	return s
 }
 
+var sigNumRe = regexp.MustCompile(`[0-9]+`)
+var sigPosRe = regexp.MustCompile(`^\S*gen_p\d+\.go:\d+:\d+: `)
+
+// failSig: the failure with positions, numbers and generated names blurred, so that shrinking keeps the
+// same failure and does not drift to another one.
+func failSig(pc *progCase, class string) string {
+	norm := func(s string) string {
+		s = strings.SplitN(strings.TrimSpace(s), "\n", 2)[0]
+		s = sigPosRe.ReplaceAllString(s, "")
+		s = sigNumRe.ReplaceAllString(s, "#")
+		if len(s) > 60 {
+			s = s[:60]
+		}
+		return s
+	}
+	switch class {
+	case "build":
+		// the first diagnostic that names this program's file
+		for _, l := range strings.Split(pc.Build, "\n") {
+			if sigPosRe.MatchString(l) {
+				// identifiers differ between candidates: keep the message up to the first identifier-ish detail
+				m := norm(l)
+				if i := strings.IndexAny(m, ":("); i > 0 {
+					m = m[:i]
+				}
+				return class + ":" + m
+			}
+		}
+		return class
+	case "reject":
+		m := pc.FcErr
+		if i := strings.LastIndex(m, ": "); i >= 0 {
+			m = m[i+2:]
+		}
+		return class + ":" + norm(m)
+	case "panic":
+		return class + ":" + norm(pc.Panic)
+	}
+	return class
+}
+
 // shrink a failing program while the same class of failure persists
 func (r *c01Run) shrink(pc *progCase, class string) *progCase {
 	if pc.P.RawFo != "" {
@@ -191,7 +234,12 @@ func (r *c01Run) shrink(pc *progCase, class string) *progCase {
 		return pc
 	}
 	best := pc
+	sig := failSig(pc, class)
+	deadline := time.Now().Add(time.Duration(r.c.Pick(90, 300)) * time.Second)
 	test := func(cands []*Prog) []bool {
+		if time.Now().After(deadline) {
+			return make([]bool, len(cands))
+		}
 		cases := make([]*progCase, len(cands))
 		for i, q := range cands {
 			q.Hazard = pc.P.Hazard
@@ -206,7 +254,7 @@ func (r *c01Run) shrink(pc *progCase, class string) *progCase {
 		runBatch(r.c, r.dir("shrink"), live, r.tr, false, class == "reject")
 		res := make([]bool, len(cands))
 		for i, cs := range cases {
-			if cs.Expect.OK() && cs.verdict() == class {
+			if cs.Expect.OK() && cs.verdict() == class && failSig(cs, class) == sig {
 				res[i] = true
 			}
 		}
